@@ -18,8 +18,8 @@ static const int tmos[4] = { 0, 2, -2 /* DEADLINE */, -1 /* INFINITE */ };
 enum { CB_EXITS, CB_DIES_ON_TERM, CB_HANDLER, CB_IGNORES, NCB };
 static const char *const cb_names[] = { "exits-by-itself", "dies-on-term", "term-handler-then-dies", "ignores-term" };
 static const char *const cb_scripts[] = { "X5", "", "S15:H ; T15", "S15:I ;" };
-enum { IS_RUNNING, IS_EXITED, IS_REAPED, NIS };
-static const char *const is_names[] = { "running", "exited-unreaped", "reaped" };
+enum { IS_RUNNING, IS_EXITED, IS_REAPED, IS_WAITFAIL, NIS };
+static const char *const is_names[] = { "running", "exited-unreaped", "reaped", "exited,reap-interrupted" };
 enum { VIA_STOP, VIA_DESTROY };
 
 enum { CL_STATUS, CL_TIMEOUT, CL_EINVAL, CL_HANG, CL_SIG_ORDER, CL_SIG_TIME, CL_ALL_SLOTS, CL_ENDED_AT_EXIT, CL_DEFAULT_POLICY, CL_NONRUNNING_DESTROY,
@@ -92,7 +92,7 @@ static void build_triples(void)
 /* per triple: deadline {none, 3, 3 and already expired} x child behaviour 4 x (initial state, via) in {run/stop, run/destroy, exited/stop,
  * reaped/stop, exited/destroy}. The expired variant only exists for triples that look at the deadline (a DEADLINE timeout, or all-noop). */
 static long prefix[2][2][8001]; /* [property: 0 = C07 (stop), 1 = C15 (destroy)][tier] */
-static const int nsv[2] = { 3, 2 };
+static const int nsv2[2][2] = { { 3, 4 }, { 3, 3 } }; /* [property][tier]: the quick tier of C07 leaves the interrupted-reap state to C15 and C14 */
 
 static int triple_uses_deadline(int tier, long tr)
 {
@@ -113,7 +113,7 @@ static void build_prefix(void)
   for (int m = 0; m < 2; m++)
     for (int tier = 0; tier < 2; tier++) {
       prefix[m][tier][0] = 0;
-      for (long t = 0; t < ntriples[tier]; t++) prefix[m][tier][t + 1] = prefix[m][tier][t] + (triple_uses_deadline(tier, t) ? 3 : 2) * NCB * nsv[m];
+      for (long t = 0; t < ntriples[tier]; t++) prefix[m][tier][t + 1] = prefix[m][tier][t] + (triple_uses_deadline(tier, t) ? 3 : 2) * NCB * nsv2[m][tier];
     }
 }
 
@@ -138,7 +138,8 @@ static void decode(int m, int tier, long cfg, struct cfg *c)
   v /= nd;
   c->cb = (int) (v % NCB);
   v /= NCB;
-  static const int isv[2][3][2] = { { { IS_RUNNING, VIA_STOP }, { IS_EXITED, VIA_STOP }, { IS_REAPED, VIA_STOP } }, { { IS_RUNNING, VIA_DESTROY }, { IS_EXITED, VIA_DESTROY }, { 0, 0 } } };
+  static const int isv[2][4][2] = { { { IS_RUNNING, VIA_STOP }, { IS_EXITED, VIA_STOP }, { IS_REAPED, VIA_STOP }, { IS_WAITFAIL, VIA_STOP } },
+                                    { { IS_RUNNING, VIA_DESTROY }, { IS_EXITED, VIA_DESTROY }, { IS_WAITFAIL, VIA_DESTROY }, { 0, 0 } } };
   c->is = isv[m][v][0];
   c->via = isv[m][v][1];
   c->faults = 0;
@@ -365,24 +366,20 @@ static void evaluate(int kind, int r, const char *where)
  * a free run cannot reproduce is a zero-timeout look at a child that a signal has just been sent to: how fast a signal kills is up to the kernel. */
 static int free_run_comparable(void)
 {
-  if (C.faults || C.prefail) return 0;
+  if (C.faults || C.prefail || C.is == IS_WAITFAIL) return 0;
   if (C.is != IS_RUNNING) return !(C.deadline && !C.expired && C.cb == CB_EXITS); /* the free run waits for the child's own exit: the deadline passes */
   struct slot s[3];
   int64_t tau[4];
   int m = plan(s, tau);
-  int handled = 0;
   for (int k = 0; k < m; k++) {
     int dying = 0;
     if (s[k].act == A_BAD) return 1;
     if (s[k].act == A_KILL) dying = 1;
     if (s[k].act == A_TERM) {
       if (C.cb == CB_EXITS || C.cb == CB_DIES_ON_TERM) dying = 1;
-      if (C.cb == CB_HANDLER) {
-        if (handled) dying = 1; /* the handler is one-shot in the helper's script: unknown here, stay away */
-        handled = 1;
-      }
+      /* a handled TERM kills the helper only at its next step, one gap later: not during the finite waits */
     }
-    if (dying) return s[k].tmo > 0;
+    if (dying) return s[k].tmo >= 2; /* 60 real ms: room for the start-up time a loaded machine adds before an until-deadline slot */
     if (s[k].tmo >= INF_T) return 1;
   }
   return 1;
@@ -415,7 +412,7 @@ static void run_cfg(const char *prop_unused)
   if (C.faults) {
     vk_cfg.faults_on = 1;
     vk_cfg.fault_bound = 1;
-    vk_cfg.fault_calls = 1ull << C_KILL;
+    vk_cfg.fault_calls = (1ull << C_KILL) | (1ull << C_POLL);
   }
   reproc_stop_actions sa = { { (REPROC_STOP) C.a[0], C.t[0] }, { (REPROC_STOP) C.a[1], C.t[1] }, { (REPROC_STOP) C.a[2], C.t[2] } };
   char sb[100];
@@ -470,6 +467,16 @@ static void run_cfg(const char *prop_unused)
       vk_cfg.sched_on = 1;
       if (w != CH->expect_status) vk_finish(OUT_INFRA, "setup wait returned %d", w);
     }
+    if (C.is == IS_WAITFAIL) {
+      /* an earlier wait found the child gone but its reap was interrupted by a signal: the handle is still running, the child still a zombie */
+      vk_cfg.sched_on = 0;
+      vk_force_fault(C_WAITPID, EINTR);
+      int w = hx_wait(P, REPROC_INFINITE);
+      vk_force_fault(0, 0);
+      vk_cfg.sched_on = 1;
+      if (w != -EINTR && w != CH->expect_status) vk_finish(OUT_INFRA, "setup wait with an interrupted reap returned %d", w);
+      if (w >= 0) { C.is = IS_REAPED; } /* a library that retries the reap: then this is the reaped state */
+    }
   }
   if (C.expired) vk_advance(5);
   vk_faults_armed = 1;
@@ -509,7 +516,7 @@ static void run_cfg(const char *prop_unused)
 static void c07_run(int tier, long cfg)
 {
   decode(0, tier, cfg, &C);
-  if (tier && (cfg % 7) == 0) C.faults = 1;
+  if (cfg % (tier ? 3 : 11) == 0) C.faults = 1; /* a failing kill(), a poll interrupted by a signal after any of the elapsed times */
   run_cfg("C07");
 }
 
@@ -577,5 +584,5 @@ static void c15_run(int tier, long cfg)
   if (S->nviol == nv) vk_hit(CL_NONRUNNING_DESTROY);
 }
 
-const struct hx_harness h_c07 = { "C07", "h_c07", stop_n, c07_run, stop_clauses, NULL, 0, { 0, 0 }, 0, 41 };
-const struct hx_harness h_c15 = { "C15", "h_c15", c15_n, c15_run, stop_clauses, NULL, 0, { 0, 0 }, 0, 41 };
+const struct hx_harness h_c07 = { "C07", "h_c07", stop_n, c07_run, stop_clauses, NULL, 0, { 0, 0 }, 0, 331 };
+const struct hx_harness h_c15 = { "C15", "h_c15", c15_n, c15_run, stop_clauses, NULL, 0, { 0, 0 }, 0, 211 };
